@@ -16,7 +16,8 @@ VARIABLES hist,
 
 gvars == <<vars, hist, mode>>
 Ev(a, m, d, kind, size, v, k, o1, o2, o3) ==
-  [a |-> a, m |-> m, d |-> d, kind |-> kind, size |-> size, v |-> v, k |-> k, o1 |-> o1, o2 |-> o2, o3 |-> o3]
+  [a |-> a, m |-> m, d |-> d, kind |-> kind, size |-> size, v |-> v, k |-> k, o1 |-> o1, o2 |-> o2, o3 |-> o3,
+   cuts |-> <<>>]
 Rec(e) == hist' = Append(hist, e)
 E0(a, m) == Ev(a, m, "", "", 0, 0, 0, 0, 0, 0)
 
@@ -57,6 +58,14 @@ FlushKs(m) ==
   {k \in {Pick(ks, Step), Pick(ks, 3 * Step + 5), hl + bl} : k >= 0 /\ k <= hl + bl}
 SizesNow == {Pick(GSizes, Step), Pick(GSizes, 3 * Step + 1)}
 
+\* fragmentations of the act in flight: around the version byte, the key, the tag; two or three fragments
+CutsNow ==
+  LET n  == ActSize(act.k)
+      ps == <<1, 2, 33, 34, 35, n - 17, n - 16, n - 15, n - 2, n - 1, n \div 2>>
+      p  == Pick(ps, Step)
+      q  == Pick(ps, 5 * Step + 2) IN
+  IF act.k = 0 THEN {}
+  ELSE {<<p, n - p>>} \cup (IF p < q THEN {<<p, q - p, n - q>>} ELSE IF q < p THEN {<<q, p - q, n - p>>} ELSE {})
 AdvOk == mode = "msg" /\ nadv < MaxAdvG
 NWrites == nsent["ab"] + nsent["ba"]
 
@@ -76,6 +85,7 @@ GNext ==
      \/ RecvActThree /\ Rec(E0("RecvActThree", "B"))
      \/ Mode = "hs" /\ nadv < 1 /\ \E kind \in {"ver", "eph", "badpt", "tag", "ct"} :
           AlterAct(kind) /\ Rec(Ev("AlterAct", "", "", kind, 0, 0, 0, 0, 0, 0))
+     \/ \E c \in CutsNow : FragmentAct(c) /\ Rec([E0("FragmentAct", "") EXCEPT !.cuts = c])
      \/ Mode = "hs" /\ nadv < 1 /\ OldActOne /\ Rec(E0("OldActOne", ""))
      \/ \E m \in Machines :
           \/ \E size \in (IF pend[m] = NoPend THEN SizesNow ELSE {1}) : \E v \in (IF size = LEN THEN {Pick(GVals, Step)} ELSE {-1}) :
